@@ -310,7 +310,71 @@ def run_C05(run):
                       "coqc (A_C05_defs, P_C05_w8, P_C05_w16_0..7, P_C05_general, Properties_C05); tools/corr/impl_C05 | coq/extract/corr_model")
 
 
-TABLE = {"C05": run_C05, "C07": run_C07, "C01": run_C01, "C13": run_C13, "C09": run_C09, "C04": run_C04, "C02": run_C02, "C10": run_C10, "C08": run_C08, "C17": run_C17, "C12": run_C12}
+# ------------------------------------------------------------------------------------------ C18
+def ladder_validation(run):
+    """translator self-validation: the real overloads and the translated programs (evaluated by vm_compute) on the same arguments"""
+    exe = os.path.join(run.dir, "impl_C18_ladders")
+    ok, err = run.build_cpp(os.path.join(core.VERIF, "tools", "corr", "impl_C18_ladders.cpp"), exe, [], opt="-O1")
+    if not ok:
+        run.broken.append({"what": "ladder validation driver does not compile against /repo", "detail": err[-2000:]}); return
+    rc, out, err, dt = core.sh([exe, str(run.seed)], timeout=300)
+    cases = []
+    for l in out.split("\n"):
+        t = l.split()
+        if len(t) < 4 or "=" not in t: continue
+        i = t.index("="); cases.append((t[0], [int(x, 16) for x in t[1:i]], [int(x, 16) for x in t[i + 1:]]))
+    byname = {}
+    for nm, a, r in cases: byname.setdefault(nm, []).append((a, r))
+    txt = ["Require Import ZArith List Bool. Import ListNotations.", "From GLMV Require Import OrHom.", "From W Require Import A_C18_defs Gen_C18_ladders.", "Local Open Scope Z_scope.",
+           "Definition zl_eqb (a b : list Z) : bool := (length a =? length b)%nat && forallb (fun p => fst p =? snd p) (combine a b)."]
+    names = sorted(byname)
+    for nm in names:
+        rows = "; ".join("([%s], [%s])" % ("; ".join(map(str, a)), "; ".join(map(str, r))) for a, r in byname[nm])
+        f = "(fun ar => zl_eqb (run_de %s (hd 0 (fst ar))) (snd ar))" % nm if nm.startswith("de_") else "(fun ar => zl_eqb [run_il %s (fst ar)] (snd ar))" % nm
+        txt.append("Eval vm_compute in (map %s [%s])." % (f, rows))
+    res = run.coq_eval("Val_C18_ladders", "\n".join(txt) + "\n")
+    lists = re.findall(r"=\s*\[([^\]]*)\]", res.replace("\n", " "))
+    bad = []
+    if len(lists) != len(names):
+        run.broken.append({"what": "ladder translator validation could not be evaluated", "detail": res[-1500:]}); return
+    for nm, l in zip(names, lists):
+        vals = [v.strip() for v in l.split(";")]
+        for (a, r), v in zip(byname[nm], vals):
+            if v != "true": bad.append("%s args=%s impl=%s" % (nm, [hex(x) for x in a], [hex(x) for x in r]))
+    run.cov["ladder_translator_validation_cases"] = len(cases)
+    if bad:
+        run.broken.append({"what": "ladder translator validation: the translated program disagrees with the compiled overload for " + ", ".join(sorted(set(b.split()[0] for b in bad))), "detail": "\n".join(bad[:10])})
+
+
+def run_C18(run):
+    gen = os.path.join(run.dir, "Gen_C18_ladders.v")
+    rc, out, err, dt = core.sh(["python3", os.path.join(core.VERIF, "tools", "trace", "gen_C18.py"), core.REPO, gen], timeout=120)
+    run.logonly("== gen_C18", out.strip(), err.strip())
+    gens = [gen]
+    if rc != 0:
+        run.broken.append({"what": "ladder translator gen_C18.py cannot read glm/gtc/bitfield.inl (statement outside the ladder grammar)", "detail": (err or out)[-1500:]})
+        open(gen, "w").write("(* translator failed *)\n")
+    else:
+        run.cov["ladders_translated"] = out.strip()
+    shards = ["C18/P_C18_w16_%d.v" % k for k in range(8)] + ["C18/P_C18_sqrt_%d.v" % k for k in range(4)]
+    run.prove(gens, ["C18/A_C18_defs.v"], ["C18/P_C18_ladders.v", "C18/P_C18_w8.v", "C18/P_C18_general.v"] + shards, "C18/Properties_C18.v", timeout=1500)
+    if rc == 0: ladder_validation(run)
+    run.run_corr("impl_C18.cpp", [run.seed, run.tier], flags=["-fwrapv"])
+    fails = oracle_sweep(run, "C18", [("all", ["-fwrapv", "-pthread"])], run.tier, opt="-O1")
+    run.fails = run.triage(fails)
+    run.assumptions = ["32/64-bit element types: the power-of-two family (smear ladder, findMSB), findNSB, the rotations, gtx/bit and sqrt beyond 65535 are NOT theorems (no lifting lemma for the smear ladder was completed); they are covered by the correspondence check and the loop-based oracle on boundary, single-bit, power+-1 and random values (testing)",
+                       "floating ceil/floor/roundMultiple: modelled only on a dyadic grid (Source = s/2^e, Multiple = m/2^e, |s| <= 10^6, m <= 4000, e <= 5) where every operation is exact; no theorem about rounding off the grid",
+                       "the vector overloads are tied to the scalar model by the correspondence driver (one lane carries the operands) and the oracle's scalar-vs-vector comparison",
+                       "signed 32/64-bit arithmetic is modelled as wrapping and the drivers are built with -fwrapv; overflowing cases are formally undefined (property C20)",
+                       "the signed bitfieldInterleave overloads (union punning) are checked by the translator's pattern match and the oracle, not stated as theorems"]
+    run.samples.append("correspondence: all 256 values of int8/uint8 exhaustively; 1500 structured values per wider type (0..9, ~0, 2^k, 2^k+-1, 3*2^k, -2^k, type min/max, top power + 1..5, small negatives, random) crossed with structured multiples (1, 1..17, special), every count for findNSB, random shifts and fields; floating multiples on the dyadic grid incl. exact multiples; gtx pow/sqrt/mod/factorial/nlz")
+    return run.finish(TRUST_H + ["tools/trace/gen_C18.py: translator of the interleave/deinterleave ladders (statement grammar; validated on every run against the compiled overloads by vm_compute)",
+                                 "oracle_C18.cpp: loop-based one-bit-at-a-time references (violation search; sole check of the 32/64-bit items above)"],
+                      "theorems: every argument value for the translated interleave/deinterleave ladders (2^16..2^64 tuples); every width and value for ceil/floor/next/prevMultiple, isMultiple, mask, fill structure, gtx mod/pow; exhaustive over all 8- and 16-bit values (every count, shift, field) for the power-of-two family, findNSB, rotations; sqrt for x < 65536; factorial to 12!/20!",
+                      "gen_C18.py; coqc (Gen_C18_ladders, A_C18_defs, P_C18_ladders, P_C18_w8, P_C18_w16_0..7, P_C18_sqrt_0..3, P_C18_general, Properties_C18); tools/corr/impl_C18 | coq/extract/corr_model")
+
+
+TABLE = {"C18": run_C18, "C05": run_C05, "C07": run_C07, "C01": run_C01, "C13": run_C13, "C09": run_C09, "C04": run_C04, "C02": run_C02, "C10": run_C10, "C08": run_C08, "C17": run_C17, "C12": run_C12}
 
 
 def replay(pid, path):
